@@ -25,7 +25,7 @@ def alphabet():
             ("bul", "i1", "i2"), ("enum",) + tuple(f"e{n}" for n in range(1, 11)),
             ("dir", "note"), ("dir", "function", "f(a b)"),
             ("opt", "maxdepth", "2"),
-            ("sec", "Sub"), ("up",), ("title", "New"), ("title", "A considerably longer title"),
+            ("sec", "Sub"), ("up",), ("title", "New"), ("title", "A considerably longer title"), ("title_same",),
             ("clear",), ("ser",)]
 
 
@@ -125,6 +125,9 @@ def build(ops, title, headers, with_ser=True):
             stack.pop()
         elif k == "title":
             cur.title = op[1]; r.title = op[1]
+        elif k == "title_same":      # a different title of exactly the same length
+            t = r.title[:-1] + ("Z" if r.title[-1:] != "Z" else "Y")
+            cur.title = t; r.title = t
         elif k == "clear":
             cur.clear(); r.items = []
         elif k == "ser":
@@ -294,6 +297,21 @@ def run(ctx):
         ctx.cov["max_depth"] = max(ctx.cov["max_depth"], d)
         ctx.cov["spaces"][f"title={title!r} headers={'default' if headers is None else ''.join(headers)} depth<={d}"] = \
             sum(r["n"] for r in results)
+    # deep chains: d nested directives (d up to 12) with one element of every kind at the bottom and on the way up
+    deep = []
+    for d in range(1, 13):
+        ops = [("dir", "note")] * d + [("opt", "maxdepth", "2"), ("text", MULTI), ("text", INDENTED), ("field", "fname", "fval"),
+                                       ("bul", "i1", "i2"), ("enum",) + tuple(f"e{n}" for n in range(1, 11)), ("ser",)]
+        ops += [("up",), ("text", "single line")] * (d - 1)
+        deep.append(ops)
+    for ops in deep:
+        v, rd, od, nt = check(ops, titles[0], None)
+        ctx.cov["evaluations"] += 1
+        ctx.cov["traces_validated_against_impl"] += 1
+        ctx.cov["transitions"] += 1
+        if v:
+            ctx.violation({"ops": [list(o) for o in ops], "title": titles[0], "headers": None}, v, cls="deep-chain " + v[0].split(":")[0])
+    ctx.cov["bounds"]["deep_chains_up_to_depth"] = 12
     ctx.sample({"ops": [["dir", "function", "f(a b)"], ["opt", "maxdepth", "2"], ["text", MULTI], ["ser"], ["up"]],
                 "title": titles[0], "headers": None})
     ctx.sample({"ops": [list(o) for o in leaves[len(leaves) // 2]], "title": title, "headers": headers})
